@@ -1,8 +1,8 @@
 // C53: mod_prison recordAndCheck over timed request histories vs model Prison.v.
-// input : [period, stay, threshold, [[key time] ...]]  in units of 0.5 s; times non-decreasing.
+// input : [period, stay, threshold, [[key time] ...]]  in units of 30 min; times non-decreasing.
 // Periods are odd, stay and request times even, so that no comparison of the real code (start+period < now,
-// now < freeTime) ever falls on an exact boundary: the few microseconds of real time that pass while the
-// history is replayed on the virtual clock cannot change a verdict.
+// now < freeTime) ever falls on an exact boundary: the real time that passes while the history is replayed on the
+// virtual clock (far below one unit even on a stalled machine) cannot change a verdict.
 // output: [0/1 ...] verdict of recordAndCheck per request
 package main
 
@@ -12,7 +12,7 @@ import (
 	"github.com/bfenetworks/bfe/bfe_modules/mod_prison"
 )
 
-const unit = int64(500 * 1000 * 1000) // 0.5 s in ns
+const unit = int64(1800) * 1000 * 1000 * 1000 // 30 min in ns: real time spent replaying (ms) is negligible against it
 
 func impl(in hv.Val) hv.Val {
 	l := hv.AsList(in)
@@ -34,7 +34,7 @@ func impl(in hv.Val) hv.Val {
 }
 
 func gen(r *hv.Rng, i int, tier string) (string, hv.Val) {
-	period := int64(2*r.Range(0, 6) + 1) // odd: 0.5 s .. 6.5 s
+	period := int64(2*r.Range(0, 6) + 1) // odd number of units
 	stay := int64(2 * r.Range(0, 5))     // even
 	th := int64(r.Range(0, 5))
 	if r.Chance(1, 30) {
